@@ -439,9 +439,10 @@ fn reach_wanted(id: &str) -> &'static [&'static str] {
 fn rule_text(id: &str) -> String {
     let base = "cases = oracle evaluations: every executed transaction whose message kind is relevant to this property \
 (judged after the step against the reference model re-seeded from the observed real pre-state, plus the cross-invariants \
-and history monitors) and every fork-probe case; a case is distinct and non-trivial when its (abstract state class of the \
-pre-state [multiset of per-record lifecycle/fee/asset-shape classes + fee denomination + registry size], message kind or \
-probe case kind, deposit path, outcome, fault fired) tuple has not been seen before in this batch — counted with a hash set";
+and history monitors) and every fork-probe case; a case is distinct and non-trivial when its tuple (message kind or probe case kind, deposit path, \
+outcome, fault fired, fee denomination in force, model verdict with its refusal reasons, class of the targeted record(s) in the pre-state \
+[lifecycle stage, expired?, pending fee?, number of fungibles/NFTs capped at 3, whitelisted?, owned by the sender?, royalties due on either side?]) \
+has not been seen before in this batch — counted with a hash set";
     format!("{base}; property {id}")
 }
 
